@@ -45,6 +45,8 @@ def main(argv=None):
             from .liveness import run_liveness
             mod.liveness = lambda: CASES[prop]
             run_liveness(prop, mod, res)
+            from .liveness import run_seeded
+            run_seeded(prop, mod, res)
     except AnalysisError as exc:
         print(f'ANALYSIS-ERROR property={prop} {exc}')
         return 2
